@@ -23,6 +23,9 @@ ASYM = {
     "ed25519a": ("OKP", 256, "Ed25519"), "ed25519b": ("OKP", 256, "Ed25519"),
     "ed448a": ("OKP", 456, "Ed448"), "ed448b": ("OKP", 456, "Ed448"),
 }
+for _c, _b, _n in (("p256", 256, "P-256"), ("p384", 384, "P-384"), ("p521", 521, "P-521"), ("k256", 256, "secp256k1")):
+    for _z in ("zx", "zy", "zd"):
+        ASYM[_c + _z] = ("EC", _b, _n)
 
 
 def asym(base, priv=1, alg="~", kid="~", **kw):
